@@ -65,7 +65,7 @@ def stats(c, r):
 e1check.run(dict(
     prop='C17', model='deque', harness='e1/deque.cpp', bin='e1_deque', gen=gen, nontrivial=nontrivial, stats=stats,
     findings=[dict(id='aba-link', case='findings/C17-aba-link.case', signature='(duplicate)')],
-    quick=3000, thorough=60000, extra=20000, libs='-latomic',
+    quick=3000, thorough=250000, extra=20000, libs='-latomic',
     rule='random programs (1-4 threads, 1-5 ops each over push_left/right, pop_left/right on one deque, or push(v,other_end)/pop(v,steal) on a lifo/abp_fifo/abp_lifo/fifo back-end), freelist pre-allocation 1-8 nodes, PRNG schedules (uniform / priority / sticky) over the hook points before every anchor load/compare/CAS, link load/store/CAS, alloc and free; the container is drained at the end and compared with the model chain; non-trivial = an anchor CAS failed or a stabilisation link CAS ran; distinct = distinct (program, schedule seed) text',
     assumptions=['the contiguous index queue clauses of C17 are covered by Props/C17Index.lean (built with C11), not by this check',
                  'freelist (boost freelist_stack) modelled as an atomic allocate/deallocate of node identities; anchor and link tags modelled as unbounded naturals (16-bit in the code)',
